@@ -68,6 +68,13 @@ pub struct HybCfg {
     pub invalid_ratio_picker: bool,
     /// start with held io
     pub hold_io: bool,
+    /// FifoPicker probation ratio in percent (default picker: 10)
+    #[serde(default = "default_probation")]
+    pub probation_pct: u8,
+}
+
+fn default_probation() -> u8 {
+    10
 }
 
 impl HybCfg {
@@ -169,6 +176,14 @@ pub enum HOp {
     Close,
     Throttle { on: bool },
     Nop,
+    /// read every key of the universe from the memory tier (has the side effects of a lookup; used by C15 right
+    /// before close to record what is resident)
+    SnapshotMem,
+    /// drop the cache without calling close(), let the spawned close finish, reopen
+    ReopenNoClose,
+    /// close(); the instant it resolves the process "dies": only device writes completed by then are in the image
+    /// that is reopened (pending device ops are lost)
+    CloseCrashReopen,
 }
 
 #[derive(Clone, Debug, Serialize, PartialEq, Eq)]
@@ -181,7 +196,15 @@ pub enum Src {
 #[derive(Clone, Debug, Serialize, PartialEq, Eq)]
 pub enum LookupOut {
     Miss,
-    Hit { decoded: Decoded, len: usize, source: Src, bytes_head: Vec<u8> },
+    Hit {
+        decoded: Decoded,
+        len: usize,
+        source: Src,
+        bytes_head: Vec<u8>,
+        /// entry age reported by the cache: 0 fresh, 1 young, 2 old
+        age: u8,
+        in_mem_advice: bool,
+    },
     Err(String),
 }
 
@@ -221,6 +244,8 @@ pub enum HRet {
     Io(bool),
     /// reopen finished; false = open failed
     Reopened(bool),
+    /// (key, version) of every entry found in the memory tier
+    MemSnapshot(Vec<(u64, u64)>),
 }
 
 #[derive(Clone, Debug, Serialize)]
@@ -320,6 +345,12 @@ fn lookup_out(r: foyer::Result<Option<Entry>>) -> LookupOut {
                     Source::Outer => Src::Outer,
                 },
                 bytes_head: v.iter().take(24).copied().collect(),
+                age: match e.properties().age() {
+                    foyer::Age::Fresh => 0,
+                    foyer::Age::Young => 1,
+                    foyer::Age::Old => 2,
+                },
+                in_mem_advice: e.properties().location() == Location::InMem,
             }
         }
         Err(e) => LookupOut::Err(format!("{:?}", e.kind())),
@@ -400,10 +431,11 @@ impl HybSim {
             .with_tombstone_log(cfg.tombstone)
             .with_compression(cfg.compression());
         // FifoPicker last always picks, so the engine never falls back to its random choice
+        let fifo = || Box::new(FifoPicker::new(cfg.probation_pct as f64 / 100.0));
         if cfg.invalid_ratio_picker {
-            engine = engine.with_eviction_pickers(vec![Box::new(InvalidRatioPicker::new(0.8)), Box::<FifoPicker>::default()]);
+            engine = engine.with_eviction_pickers(vec![Box::new(InvalidRatioPicker::new(0.8)), fifo()]);
         } else {
-            engine = engine.with_eviction_pickers(vec![Box::<FifoPicker>::default()]);
+            engine = engine.with_eviction_pickers(vec![fifo()]);
         }
         if !cfg.admission_reject.is_empty() {
             engine = engine.with_admission_filter(StorageFilter::new().with_condition(RejectKeys {
@@ -613,6 +645,59 @@ impl HybSim {
         let mut hang = None;
         let ret = match op {
             HOp::Nop => HRet::None,
+            HOp::SnapshotMem => {
+                let mut v = vec![];
+                for k in 0..self.cfg.universe() as u64 {
+                    if let Some(e) = self.cache().memory().get(&k) {
+                        if let Decoded::Valid { key, version } = decode_value(e.value()) {
+                            v.push((key, version));
+                        } else {
+                            v.push((k, u64::MAX));
+                        }
+                    }
+                }
+                HRet::MemSnapshot(v)
+            }
+            HOp::CloseCrashReopen => {
+                let cache = self.cache().clone();
+                let t = self.spawn_task(TaskKind::Close, async move {
+                    TaskOut::Unit(cache.close().await.map_err(|e| format!("{:?}", e.kind())))
+                });
+                hang = self.drain_until(t, &mut resolved);
+                if hang.is_none() {
+                    let image = self.disk.image();
+                    self.sync_log();
+                    self.disk.abandon_pending();
+                    self.handles.clear();
+                    self.cache = None;
+                    drop(self.rt.take());
+                    self.rt = Some(tokio::runtime::Builder::new_current_thread().build().unwrap());
+                    self.disk = SimDisk::from_image(image);
+                    self.disk.set_hold(false);
+                    self.disk.set_step(step);
+                    self.generation += 1;
+                    let ok = self.open(RecoverMode::Quiet);
+                    HRet::Reopened(ok)
+                } else {
+                    HRet::Task(t)
+                }
+            }
+            HOp::ReopenNoClose => {
+                self.handles.clear();
+                self.cache = None;
+                resolved.extend(self.drain());
+                self.sync_log();
+                drop(self.rt.take());
+                self.rt = Some(tokio::runtime::Builder::new_current_thread().build().unwrap());
+                let image = self.disk.image();
+                let hold = self.disk.is_hold();
+                self.disk = SimDisk::from_image(image);
+                self.disk.set_hold(hold);
+                self.disk.set_step(step);
+                self.generation += 1;
+                let ok = self.open(RecoverMode::Quiet);
+                HRet::Reopened(ok)
+            }
             HOp::Insert { k, sz, loc, hold, compressible } => {
                 let key = *k as u64;
                 let len = sz.value_len(&self.cfg);
